@@ -546,7 +546,7 @@ static void run_avl (unsigned long *par, int npar, char **ops, int nops)
       break;
     case 'n':
       node = NULL; r = avl_search_closest (tree, k, &node);
-      if (node != NULL) { it = (aitem_t *) node->item; oput ("n %d %x.%x", r < 0 ? -1 : r > 0, (unsigned) it->key, it->tag); } else oput ("n none %d", r);
+      if (node != NULL) { it = (aitem_t *) node->item; oput ("n | %s %x.%x", r < 0 ? "-1" : r > 0 ? "1" : "0", (unsigned) it->key, it->tag); } else oput ("n | none");
       break;
     case 'a':
       node = avl_at (tree, (unsigned) o.a[0]);
@@ -561,7 +561,7 @@ static void run_avl (unsigned long *par, int npar, char **ops, int nops)
       unsigned sz = avl_chk (tree, tree->top, NULL, &last, &ok, &h);
       if (tree->tail != last) ok = 0;
       if (tree->top == NULL && tree->head != NULL) ok = 0;
-      oput ("c %x %d | %x %d", avl_count (tree), ok && sz == avl_count (tree), tree->top ? (unsigned) ((aitem_t *) tree->top->item)->key : 0u, h);
+      oput ("c %x %d | %x %x", avl_count (tree), ok && sz == avl_count (tree), tree->top ? (unsigned) ((aitem_t *) tree->top->item)->key : 0u, h);
       break; }
     case 'f':
       n = 0; g_print = 0; avl_foreach (tree, avl_visit_fn, &n); oput ("f %x", n);
